@@ -350,4 +350,44 @@ def certAll (env : Env) (defs : Spec.Defs) : Nat → GoTy → Schema → Bool
       | .int .int => s.node.types == ["integer"]
       | _ => false
 
+
+/-! ### the coverage certificate of the soundness direction (Props/Exact.lean) -/
+
+def leafPlain (s : Schema) : Bool :=
+  s.node.enum.isNone && s.node.allOf.isEmpty && s.node.anyOf.isEmpty && !s.node.hasNot
+
+def hasNumTop (s : Schema) : Bool :=
+  !(s.node.minimum.isNone && s.node.maximum.isNone && decide (s.node.xmin = .absent) && decide (s.node.xmax = .absent))
+def hasStrTop (s : Schema) : Bool := !(s.node.minLength == 0 && s.node.maxLength == 0 && s.node.pattern == "")
+def hasArrTop (s : Schema) : Bool := !(s.node.minItems == 0 && s.node.maxItems == 0)
+def topFree (s : Schema) : Bool := !hasNumTop s && !hasStrTop s && !hasArrTop s
+
+/-- every top-level value constraint of the member's schema has its validator -/
+def topCovered (vs : List Validator) (name : String) (ps : Schema) : Bool :=
+  (!hasNumTop ps || vs.any (fun v => match v with | .numeric f _ _ => f == name | _ => false)) &&
+  (!hasStrTop ps || vs.any (fun v => match v with | .string f _ _ _ _ => f == name | _ => false)) &&
+  (!hasArrTop ps || vs.any (fun v => match v with | .array f _ _ _ => f == name | _ => false))
+
+/-- the coverage certificate (inline schemas only): every required key has its presence check, every value constraint
+    its validator, and nothing the fragment does not check is stated (enum, composition, not, multipleOf, format,
+    constraints on array items) -/
+def certCov (env : Env) : Nat → GoTy → Schema → Bool
+  | 0, _, _ => false
+  | f + 1, ty, s =>
+    s.node.ref == "" && s.node.multipleOf.isNone && s.node.format == "" &&
+    match ty with
+    | .ptr t => certCov env f t s
+    | .named nm =>
+      (match env.resolve 8 nm with
+       | some d => (match d.body, d.ty with
+          | .plain vs _, .strct fs =>
+              s.node.required.all (fun k => vs.any (fun v => match v with | .required k' => k' == k | _ => false)) &&
+              s.node.props.all (fun p => match bindKey fs p.1 with
+                | some fld => topCovered vs fld.name p.2 && certCov env f fld.ty p.2
+                | none => false)
+          | _, _ => false)
+       | none => false)
+    | .slice t => leafPlain s && (match s.node.items with | some it => topFree it && certCov env f t it | none => false)
+    | _ => leafPlain s
+
 end GJS
